@@ -55,6 +55,12 @@ FailedConv(r) ==
 \cup (IF AsOp(r.int_back) = a THEN {} ELSE {"int_to_bvector_inverse"})
 \cup (IF AsSet(r.sparse_cols) = Cols(a, n) /\ AsOp(r.sparse_back) = a THEN {} ELSE {"sparse_row_roundtrip"})
 \cup (IF AsOp(r.hadamard_all) = Op(a.z, a.x) THEN {} ELSE {"apply_deformation_swaps_x_z"})
+\cup (IF AsOp(r.hadamard_even) = Op({ q \in a.x : q % 2 = 1 } \cup { q \in a.z : q % 2 = 0 },
+                                    { q \in a.z : q % 2 = 1 } \cup { q \in a.x : q % 2 = 0 })
+      THEN {} ELSE {"apply_deformation_on_a_subset_of_qubits"})
+\cup (IF r.ints_stack = <<>> \/ (r.ints_stack = <<IntRep(a, n), 0, IntRep(AsOp(r.rev), n)>>
+                                 /\ AsOps(r.ints_stack_back) = <<a, Op({}, {}), AsOp(r.rev)>>)
+      THEN {} ELSE {"bvectors_to_ints_and_back"})
 
 FailedRank(r) ==
   IF r.rank = RankOfSets({ AsSet(r.rows[j]) : j \in DOMAIN r.rows }) THEN {} ELSE {"gf2_rank"}
@@ -67,6 +73,12 @@ FailedSparse(r) ==
 \cup (IF AsSet(r.left) = { c \in a : c < r.half } /\ AsSet(r.right) = { c - r.half : c \in { d \in a : d >= r.half } }
       THEN {} ELSE {"hsplit"})
 \cup (IF r.equal_ab = (a = b) /\ r.equal_aa THEN {} ELSE {"sparse_equal"})
+\cup (IF AsSet(r.glued) = a /\ r.glued_shape = <<1, r.width>> THEN {} ELSE {"hstack_of_hsplit"})
+\cup (IF Len(r.stacked) = 3 /\ AsSet(r.stacked[1]) = a /\ AsSet(r.stacked[2]) = b /\ r.stacked[3] = <<>>
+      THEN {} ELSE {"vstack_rows"})
+\cup (IF r.zero_row = <<1, r.width, 0>> /\ r.zero_matrix = <<3, r.width, 0>> /\ r.empty_row = <<0, r.width, 0>>
+         /\ r.is_empty = <<TRUE, FALSE, FALSE>> /\ r.is_sparse = <<TRUE, FALSE, FALSE>>
+      THEN {} ELSE {"zero_and_empty_rows"})
 
 Failed(r) == CASE r.kind = "prod" -> FailedProd(r)
                [] r.kind = "conv" -> FailedConv(r)
